@@ -128,3 +128,57 @@ func TestGenerateGrid(t *testing.T) {
 		t.Fatalf("extremum vertex is not pass-through: %d", n)
 	}
 }
+
+func TestGenerateShared(t *testing.T) {
+	sharedTotal := 0
+	for i := 0; i < 1500; i++ {
+		s := GenerateShared(gen.New(uint64(i), "s"))
+		type use struct {
+			nodes string
+			dirs  []int
+		}
+		ways := map[int64]*use{}
+		for _, in := range s.Rels {
+			if err := in.T.Validate(1); err != nil {
+				t.Fatal(err)
+			}
+			o := in.OSMPre(true, nil)
+			for k, pi := range in.WayOrder {
+				w := o.Ways[k]
+				seq := ""
+				for _, n := range w.Nodes {
+					seq += " " + n.ID.FeatureID().String()
+				}
+				u := ways[int64(w.ID)]
+				if u == nil {
+					u = &use{nodes: seq}
+					ways[int64(w.ID)] = u
+				}
+				if u.nodes != seq {
+					t.Fatalf("way %d stored differently in two relations", w.ID)
+				}
+				u.dirs = append(u.dirs, int(in.Pieces[pi].Dir))
+			}
+		}
+		n := 0
+		for id, u := range ways {
+			switch len(u.dirs) {
+			case 1:
+			case 2:
+				n++
+				if u.dirs[0] != -u.dirs[1] {
+					t.Fatalf("shared way %d must run opposite ways around its two relations", id)
+				}
+			default:
+				t.Fatalf("way %d in %d relations", id, len(u.dirs))
+			}
+		}
+		if n != s.SharedWays || n == 0 {
+			t.Fatalf("shared ways %d, counted %d", s.SharedWays, n)
+		}
+		sharedTotal += n
+	}
+	if sharedTotal < 1500 {
+		t.Fatal("too few shared ways")
+	}
+}
